@@ -186,6 +186,9 @@ def simple_wrappers(ctx):
 
     class RTV(TV):
         def reshape(self, shape):
+            if shape is None:
+                from fjvc.interp import PyRaise
+                raise PyRaise("TypeError", "reshape(None)")  # what jnp does for a None shape
             return RTV(RS(self.e, z3.IntVal(shape.tag)))
 
     class Sh(tuple):
@@ -228,6 +231,25 @@ def simple_wrappers(ctx):
         t = outs["transform"].e
         back = z3.substitute(outs["inverse"].e, (x, t))
         ctx.oblige("C01/Reshape/rt1", back == x, [RS(RS(F(b, xin, cin), 1), 0) == F(b, xin, cin), RS(RS(x, 0), 1) == x], props, fn=Q, replay=rp, inst=inst, note="hypotheses: reshape to the child's shape and back is the identity (equal element counts)")
+    # ---- an UNCONDITIONAL Reshape ignores a supplied condition like every unconditional bijection (inside a conditional Chain /
+    #      Concatenate / Stack every child is handed the shared condition)
+    class UBij(RBij):
+        def _c(self, condition):
+            return NONE  # an unconditional child does not look at the condition
+
+    uchild = UBij(b, shape=sh(0), cond_shape=None)
+    uself = Obj(cls, bijection=uchild, shape=sh(1), cond_shape=None)
+    for cname, cond in (("no_condition", None), ("condition_supplied", RTV(c))):
+        outs_u = {}
+        for meth in ("transform", "inverse", "transform_and_log_det", "inverse_and_log_det"):
+            p = single(it.explore(lambda meth=meth, cond=cond: method(cls, meth)(uself, RTV(x), cond)), ctx, f"C08/Reshape[unconditional,{cname}].{meth}/struct/straight_line", props, f"{Q}.{meth}")
+            if p is not None:
+                outs_u[meth] = p.value
+        if len(outs_u) == 4:
+            ctx.oblige(f"C08/Reshape[unconditional,{cname}]/post/only_re_presents_x_and_ignores_the_condition",
+                       z3.And(outs_u["transform"].e == RS(F(b, xin, NONE), 1), outs_u["inverse"].e == RS(G(b, xin, NONE), 1), outs_u["transform_and_log_det"][0].e == RS(F(b, xin, NONE), 1),
+                              lift(outs_u["transform_and_log_det"][1]) == LD(b, xin, NONE), outs_u["inverse_and_log_det"][0].e == RS(G(b, xin, NONE), 1), lift(outs_u["inverse_and_log_det"][1]) == -LD(b, G(b, xin, NONE), NONE)),
+                       [], props, fn=Q, replay=rp)
     # ---- Partial: only the indexed entries change
     SEL = z3.Function("select", T, T)  # x[idxs]
     UPD = z3.Function("update", T, T, T)  # x.at[idxs].set(v)
